@@ -44,10 +44,11 @@ func init() {
 			"well-formed images (random size 4 KiB..4 MiB, random metadata positions, table order, section lists), hostile images = a well-formed spec with 1..3 fields replaced from a boundary table " +
 			"(0, 1, header sizes +-1, size-1/size/size+1, 16/32-bit edges, counts whose product with the record size wraps 2^32, 2^32..2^64-1 sizes placed at free addresses above every RAM bank, misaligned values), " +
 			"blind 1/2/4/8-byte boundary writes and bit flips inside the metadata and the GUID table, truncation/extension, lists of 2..~2000 TD-HOB/TempMem sections of 4 KiB..64 MiB each at disjoint low or high addresses (each legal on its own, the sum not), raw random byte strings of 0..4096 bytes, plus a fixed list of directed cases for every arithmetic class the property names; " +
+			"list layouts = otherwise well-formed small images whose TDVF section list / SEV section list / GUID table is re-arranged and salted with 1..22 degenerate members (zero-sized TempMem, TD-HOB or firmware-volume sections at a free address, at address 0, at or inside another section, at the top of the address space, misaligned, with raw data or the extend attribute; zero-length SEV sections of every kind; table entries without payload, unknown or duplicating a looked-up GUID) placed before / just before / after / around the member the analysis singles out (TD-HOB first, in the middle, penultimate or last; secret and CPUID page), plus every ordering of the lists {BFV, TD-HOB[, TempMem], 1..3 empty TempMem} and {BFV, empty TD-HOB[, TempMem | empty TempMem]} over a 4 KiB image; " +
 			"launch options = vCPU count (incl. 0, negative), product (incl. unknown), endorsement request ids, machine shapes (incl. unknown), early-accept, arbitrary RAM bank lists. " +
 			"Every case runs through GetFwGUIDToBlockMap, SevData.ExtractFromFirmware, sev.LaunchDigest, sev.UnsignedSnp, the three ovmf.ExtractMaterialGuestPhysicalRegions*, tdx.MRTD in default / legacy / early-accept / custom-bank modes and tdx.UnsignedTDX in a child process under ulimit -v 6 GiB. " +
 			"A call refutes the property when it panics, kills the process, uses more thread CPU than (10 s + 2 s/MiB of image) or allocates more than (256 MiB + 512 bytes per image byte), each multiplied by the number of measurements the call was asked for. " +
-			"non-trivial = a call on an image whose mutated fields belong to what that entry point parses (GUID table and whole-image mutations: every entry point; SEV fields: the SEV entry points; TDVF fields: the TDX entry points), or on a well-formed image; distinct = (first mutated field = value class [+ number of further mutations] | entry point | outcome class) cells, outcome = ok, PANIC or the error text with numbers stripped",
+			"non-trivial = a call on an image whose mutated fields belong to what that entry point parses (GUID table and whole-image mutations: every entry point; SEV fields: the SEV entry points; TDVF fields: the TDX entry points), or on a well-formed image; distinct = (first mutated field = value class [+ number of further mutations] | entry point | outcome class) cells (list layouts: arrangement = kind of degenerate member, without their number; directed layouts: the ordering), outcome = ok, PANIC or the error text with numbers stripped",
 		Assumptions: []string{
 			"the budget is the reading of 'unrelated to its size' that is enforced: CPU <= 10 s + 2 s/MiB, allocated bytes <= 256 MiB + 512*len(image), per measurement requested (UnsignedSnp with 15 vCPU counts gets 15x, UnsignedTDX with k shapes and early-accept 2k+1)",
 			"vCPU counts are kept <= 512 and RAM bank lists <= 64 entries: cost that grows with a launch option is related to that option, not to the image, and is not judged",
@@ -327,6 +328,7 @@ type caseT struct {
 	spec  *Spec
 	opts  Opts
 	only  []string // run only these entry points (directed cases that are expected to kill the child)
+	cell  string   // cell key when it is coarser than the mutation names (layout cases: without the number of empty members)
 }
 
 var numRe = regexp.MustCompile(`0x[0-9a-fA-F]+|[0-9]+|\[[0-9 #]*\]`)
@@ -627,14 +629,30 @@ func run(c *core.Ctx) {
 	dir := directed()
 	n := c.N(5000, 150000)
 	pGiant := float64(c.N(40, 240)) / float64(n)
+	// the layout stratum has its own index range behind the older cases, so that those keep their PRNG streams
+	dirL := layoutDirected()
+	nL := c.N(2500, 50000)
+	layoutOK := 0
 	accepted := map[string]int{}
 	rejected := map[string]int{}
 	largeOK, listOK, listRefused := 0, 0, 0
 	generatorOK := true
 	ms := []metrics.Sample{{Name: "/gc/heap/allocs:bytes"}}
 
-	for i := 0; i < len(dir)+n; i++ {
+	// A tree on which a layout case ends the process (a hang stopped by the CPU watchdog, the allocation
+	// watchdog, a fatal error) is refuted by that case. Every such death costs 3x the CPU budget, and a
+	// defect of this class is hit by most cases of the stratum, so after a restart inside the stratum only
+	// about four more of this shard's layout cases are run (the others are counted). Never taken on a tree
+	// that does not die: SkipTo is 0 then.
+	layout0 := len(dir) + n
+	keepEvery := max((len(dirL)+nL)/c.NShards/4, 1)
+	thinned := c.Only < 0 && c.SkipTo > layout0
+	for i := 0; i < layout0+len(dirL)+nL; i++ {
 		if !c.Mine(i) {
+			continue
+		}
+		if thinned && i >= layout0 && (i/c.NShards)%keepEvery != 0 {
+			c.Count("layout-cases-not-run-after-a-death-inside-the-stratum", 1)
 			continue
 		}
 		var cs caseT
@@ -642,10 +660,15 @@ func run(c *core.Ctx) {
 		if genErr := func() (e any) {
 			// a fault of the generator itself must never look like a fault of the repository
 			defer func() { e = recover() }()
-			if i < len(dir) {
+			switch {
+			case i < len(dir):
 				cs = dir[i]
-			} else {
+			case i < len(dir)+n:
 				cs = randomCase(c.Rand(i), pGiant)
+			case i < len(dir)+n+len(dirL):
+				cs = dirL[i-len(dir)-n]
+			default:
+				cs = layoutCase(c.Rand(i))
 			}
 			fw = cs.spec.Build()
 			return nil
@@ -659,6 +682,10 @@ func run(c *core.Ctx) {
 		var mnames []string
 		for _, m := range cs.muts {
 			mnames = append(mnames, m.field+"="+m.val)
+			if isLayout(cs.class) { // the value (an arrangement) is part of the cell, not of the counter name
+				c.Count("field/"+m.field, 1)
+				continue
+			}
 			c.Count("field/"+m.field+"="+m.val, 1)
 		}
 		gname := fmt.Sprintf("%s[%s] len=%d", cs.class, strings.Join(mnames, "; "), len(fw))
@@ -673,6 +700,9 @@ func run(c *core.Ctx) {
 			cellKey = cs.muts[0].field + "=" + cs.muts[0].val
 		} else if len(cs.muts) > 1 {
 			cellKey = cs.muts[0].field + "+" + fmt.Sprint(len(cs.muts)-1)
+		}
+		if cs.cell != "" {
+			cellKey = cs.cell
 		}
 		bigScratch := false
 		for _, m := range cs.muts {
@@ -723,6 +753,9 @@ func run(c *core.Ctx) {
 				if bigScratch && e.side == "tdx" {
 					largeOK++
 				}
+				if e.side == "tdx" && isLayout(cs.class) && strings.HasPrefix(cs.muts[0].field, "tdx.layout") {
+					layoutOK++
+				}
 				if e.side == "tdx" && len(cs.muts) > 0 && strings.HasPrefix(cs.muts[0].field, "tdx.scratch-list") {
 					listOK++
 				}
@@ -763,6 +796,8 @@ func run(c *core.Ctx) {
 	}
 	c.Floor("large-declared-range-at-free-address-was-measured", largeOK > 0)
 	c.Floor("some-list-of-scratch-sections-was-accepted-and-measured", listOK > 0)
+	c.Floor("some-section-list-with-empty-sections-was-accepted-and-measured", layoutOK > 0)
+	c.Count("layout-tdx-calls-ok", layoutOK)
 	c.Count("scratch-list-calls-ok", listOK)
 	c.Count("scratch-list-calls-error", listRefused)
 	if !generatorOK { // only ever set to false: any shard with a generator fault makes the run inconclusive
